@@ -55,6 +55,11 @@ CHECKS = {
    "Histories of good blocks (forks, reorg runs, reopen) interleaved with bad inputs failing at each validation stage — PoW, header rules, body validation, coinbase rule, UTXO checks, sums, root/size mismatch detected after the block was applied to the working state, bad header batches (second header bad; wrong prev_root inside the header extension), failing validate_tx through the read-only extension — and valid losing-fork blocks. After every step head, state roots, the unspent scan over all known commitments, stored sums and spend records of the last 12 best-chain blocks, and the result of every later delivery are compared between the twins; finally both pass validate(false) and a reopen with identical roots. Sampled exploration.",
    "Both twins run the code under test; divergence is the oracle, complemented by the independent replay model scan. header_head and remembered fork headers/blocks are excluded (statement).",
    "DESIGN.md §5 C06"),
+ "C13": ("pbt", "exploration",
+   "model-based stateful proptest: boundary placements of coinbase spends, height locks and NRD kernels on fork trees vs. a branch-local replay model; pool probes around each threshold",
+   "Chains past the NRD hard fork receive blocks whose time-locked elements sit one below, at and one above their thresholds (coinbase maturity, lock_height, NRD relative height with shared excesses), on the main chain, on fork runs that win or lose (first instance or coinbase on the other side of the fork point, rewound away by a reorg) and across reopen; accept/reject of every block must equal the verdict of the harness's branch-local model. A fresh transaction pool (stem and fluff) is probed at head heights around each threshold and must admit exactly the transactions minable in the next block. Sampled exploration.",
+   "NRD rule modelled exactly as worded in the statement; NRD acceptance by the pool is only required once the head header is at version 4.",
+   "DESIGN.md §5 C13"),
 }
 
 NOT_YET = {}
